@@ -27,9 +27,8 @@
 #include <set>
 
 #include "common.hpp"
+#include "locksweep.hpp"
 #include "schemas.hpp"
-
-extern "C" int __real_sqlite3_open_v2(const char*, sqlite3**, int, const char*);
 
 namespace dj = djinterop;
 namespace fs = std::filesystem;
@@ -608,59 +607,6 @@ void do_reopen(world& w, json& rec)
     open_handles(w, cids, tids, rec);
 }
 
-// Another connection (same process, its own sqlite3 handles - one per database file of the library) that takes a
-// SHARED (1), RESERVED (2) or EXCLUSIVE (4) lock on every file, all or nothing, and holds it until released.
-struct foreign_locks
-{
-    std::vector<sqlite3*> conns;
-    static bool exec(sqlite3* c, const char* sql) { return sqlite3_exec(c, sql, nullptr, nullptr, nullptr) == SQLITE_OK; }
-    bool acquire(const std::vector<std::string>& files, int lvl)
-    {
-        for (auto& f : files)
-        {
-            sqlite3* c = nullptr;
-            if (__real_sqlite3_open_v2(f.c_str(), &c, SQLITE_OPEN_READWRITE, nullptr) != SQLITE_OK || !c)
-            {
-                if (c)
-                    sqlite3_close(c);
-                release();
-                return false;
-            }
-            conns.push_back(c);
-            bool ok = lvl == 4 ? exec(c, "BEGIN EXCLUSIVE") : lvl == 2 ? exec(c, "BEGIN IMMEDIATE")
-                                                                    : exec(c, "BEGIN") && exec(c, "SELECT count(*) FROM sqlite_master");
-            if (!ok)
-            {
-                release();
-                return false;
-            }
-        }
-        return true;
-    }
-    void release()
-    {
-        for (auto c : conns)
-        {
-            exec(c, "ROLLBACK");
-            sqlite3_close(c);
-        }
-        conns.clear();
-    }
-};
-
-// the database files behind the library's connection, and which database indices they are
-void db_files(world& w, std::vector<std::string>& files, std::set<int>& idx)
-{
-    vh::raw_reader{w.conn}.query("PRAGMA database_list", [&](sqlite3_stmt* st) {
-        const unsigned char* f = sqlite3_column_text(st, 2);
-        if (f && *f)
-        {
-            files.emplace_back((const char*)f);
-            idx.insert(sqlite3_column_int(st, 0));
-        }
-    });
-}
-
 void exec_op(world& w, const json& op)
 {
     std::string name = op.at("op").get<std::string>();
@@ -1005,54 +951,18 @@ void exec_op(world& w, const json& op)
     // faulted attempt (TraceLibrary: Failed - throw, nothing changes); the first attempt in which none failed is the call.
     if (w.locks && !probe)
     {
-        std::vector<std::string> files;
-        std::set<int> fidx;
-        db_files(w, files, fidx);
         bool done = false;
         for (int k = 1; k <= 64 && !done && !w.dead; ++k)
             for (int want = 4; want >= 1 && !done && !w.dead;)
             {
-                // (a level the library's own locks rule out at this point falls back to the next weaker one within the
-                //  same attempt: EXCLUSIVE -> RESERVED -> SHARED; `lvl` is the level actually held, 0 = none)
-                int lvl = 0;
                 json r = rec;
                 size_t nch = w.ch.size(), nth = w.th.size();
                 std::string d0 = vh::raw_reader{w.conn}.digest();
-                foreign_locks fl;
-                bool got = false;
                 newid = 0;
-                shim::begin_call();
-                shim::set_logging(true);
-                shim::set_explain(true);
-                shim::set_hook(k, [&] {
-                    for (int x = want; x >= 1 && !got; x = x == 4 ? 2 : x == 2 ? 1 : 0)
-                        if ((got = fl.acquire(files, x)))
-                            lvl = x;
-                });
-                auto oc = vh::guarded(name.c_str(), f);
-                bool hooked = shim::hook_fired();
-                shim::set_hook(0, nullptr);
-                shim::set_explain(false);
-                int ac = sqlite3_get_autocommit(w.conn);
-                fl.release();
-                json st = json::array();
-                bool any_fail = false;   // a statement was refused because of the foreign lock
-                std::vector<const shim::stmt_rec*> order;
-                for (auto& x : shim::stmts())
-                    if (x.seq > 0)
-                        order.push_back(&x);
-                std::sort(order.begin(), order.end(), [](auto a, auto b) { return a->seq < b->seq; });
-                for (auto x : order)
-                {
-                    bool fw = false, fr = false;
-                    for (auto& nd : x->needs)
-                        if (fidx.count(nd.first))
-                            (nd.second ? fw : fr) = true;
-                    const char* res = (x->rc == SQLITE_ROW || x->rc == SQLITE_DONE) ? "ok" : x->rc == SQLITE_BUSY ? "busy" : "err";
-                    any_fail = any_fail || strcmp(res, "busy") == 0;
-                    st.push_back({{"c", x->cls}, {"fw", fw}, {"fr", fr && !fw}, {"x", x->explained}, {"r", res}, {"rc", x->rc},
-                                  {"h", x->after_hook}, {"chg", x->chg}, {"sql", x->sql.substr(0, 60)}});
-                }
+                auto la = vh::lock_attempt(w.conn, k, want, name.c_str(), f);
+                auto& oc = la.oc;
+                bool any_fail = la.any_busy;   // a statement was refused because of the foreign lock
+                want = la.next_want;           // next: the strongest level below the one just held
                 r["out"] = oc.ok ? "ok" : "throw";
                 if (!oc.ok)
                 {
@@ -1062,11 +972,11 @@ void exec_op(world& w, const json& op)
                 r["new"] = newid;
                 r["ns"] = shim::n_prepared();
                 r["nw"] = shim::n_writes();
-                r["lk"] = {{"lvl", lvl}, {"want", want}, {"k", k}, {"got", got}, {"hook", hooked}, {"ac", ac}, {"st", st}};
-                want = lvl == 4 ? 2 : lvl == 2 ? 1 : 0;   // next: the strongest level below the one just held
+                r["lk"] = la.lk;
+                int lvl = la.lk["lvl"].get<int>();
                 if (any_fail)
                 {
-                    r["fault"] = {{"k", k}, {"fired", true}, {"lock", lvl}};
+                    r["fault"] = {{"k", la.fail_k}, {"fired", true}, {"lock", lvl}};
                     r["dsame"] = vh::raw_reader{w.conn}.digest() == d0;
                     if (oc.ok)
                     {
